@@ -291,3 +291,126 @@ func (c *Ctx) runSwizzleChecked(r *Report, rule string) {
 	}
 	r.inst("swizzle.checked", n)
 }
+
+// lex.nestdelim (C19): WGSL block comments nest; the comment skipper counts
+// the nesting depth and both delimiters "/*" and "*/" are two characters long.
+// In every lexer method that adjusts a local nesting counter (depth++ /
+// depth--), the branch that does so must have consumed exactly two characters:
+// advance() calls in the branch body or in the init statement of the enclosing
+// switch, plus successful match() tests in the branch condition. A delimiter
+// of which only one character is consumed makes the following character count
+// twice ("/*/" opens and closes at once), so a comment ends too early or too
+// late and commented-out text is compiled.
+func (c *Ctx) runNestDelim(r *Report, rule string) {
+	n := 0
+	for _, fn := range c.allFuncs() {
+		if fn.Pkg.Rel != "wgsl/internal/parser" || fn.Obj == nil {
+			continue
+		}
+		sig := fn.Obj.Type().(*types.Signature)
+		if sig.Recv() == nil || namedName(sig.Recv().Type()) != "Lexer" {
+			continue
+		}
+		info := fn.Pkg.Info
+		isLex := func(e ast.Expr, name string) bool {
+			call, ok := ast.Unparen(e).(*ast.CallExpr)
+			if !ok {
+				return false
+			}
+			f := calleeOf(info, call)
+			if f == nil || f.Name() != name {
+				return false
+			}
+			s, ok := f.Type().(*types.Signature)
+			return ok && s.Recv() != nil && namedName(s.Recv().Type()) == "Lexer"
+		}
+		countCalls := func(nd ast.Node, name string) int {
+			k := 0
+			if nd == nil {
+				return 0
+			}
+			ast.Inspect(nd, func(m ast.Node) bool {
+				switch x := m.(type) {
+				case *ast.FuncLit:
+					return false
+				case *ast.CallExpr:
+					if isLex(x, name) {
+						k++
+					}
+				}
+				return true
+			})
+			return k
+		}
+		// walk with a stack of (branch body, branch condition, enclosing switch init)
+		type frame struct {
+			body []ast.Stmt
+			cond ast.Expr
+			init ast.Stmt
+		}
+		var walk func(stmts []ast.Stmt, fr frame)
+		ord := 0
+		judge := func(st *ast.IncDecStmt, fr frame) {
+			id, ok := ast.Unparen(st.X).(*ast.Ident)
+			if !ok {
+				return
+			}
+			v, ok := info.Uses[id].(*types.Var)
+			if !ok || v.IsField() || v.Parent() == v.Pkg().Scope() {
+				return
+			}
+			consumed := 0
+			for _, s := range fr.body {
+				consumed += countCalls(s, "advance")
+			}
+			if fr.cond != nil {
+				consumed += countCalls(fr.cond, "match")
+			}
+			if fr.init != nil {
+				consumed += countCalls(fr.init, "advance")
+			}
+			n++
+			ord++
+			cons := fn.id() + ":" + id.Name + st.Tok.String()
+			if ord > 2 {
+				cons += "#" + itoa(ord)
+			}
+			if consumed == 2 {
+				r.ok(rule, cons, c.pos(st.Pos()), "")
+			} else {
+				r.viol(rule, cons, c.pos(st.Pos()), fn.id()+" adjusts the nesting counter "+id.Name+" in a branch that consumes "+itoa(consumed)+" character(s); both comment delimiters are two characters long, so the unconsumed character is looked at again and can open or close another level")
+			}
+		}
+		walk = func(stmts []ast.Stmt, fr frame) {
+			for _, s := range stmts {
+				switch x := s.(type) {
+				case *ast.IncDecStmt:
+					judge(x, fr)
+				case *ast.IfStmt:
+					walk(x.Body.List, frame{x.Body.List, x.Cond, fr.init})
+					switch e := x.Else.(type) {
+					case *ast.BlockStmt:
+						walk(e.List, frame{e.List, nil, fr.init})
+					case *ast.IfStmt:
+						walk([]ast.Stmt{e}, fr)
+					}
+				case *ast.ForStmt:
+					walk(x.Body.List, frame{x.Body.List, nil, nil})
+				case *ast.SwitchStmt:
+					for _, cl := range x.Body.List {
+						cc := cl.(*ast.CaseClause)
+						var cond ast.Expr
+						if len(cc.List) == 1 {
+							cond = cc.List[0]
+						}
+						walk(cc.Body, frame{cc.Body, cond, x.Init})
+					}
+				case *ast.BlockStmt:
+					walk(x.List, fr)
+				}
+			}
+		}
+		walk(fn.Decl.Body.List, frame{})
+	}
+	r.inst("lex.nestdelim", n)
+}
